@@ -1,5 +1,5 @@
 """C18 — stream and file hashing fail closed under I/O faults (error-flow discipline on MIR)."""
-from ..rules import errflow, generator as gen
+from ..rules import errflow, generator as gen, summary
 
 EXPL = ("Decides, on every CFG path of hash_stream_common / hash_stream / hash_file: every Result-returning call (read, finalize, "
         "File::open, metadata, set_fixed_input_size, hash_stream_common) is consumed by `?` whose Break arm returns exactly that "
@@ -23,4 +23,5 @@ def run(ctx):
         ctx.guard("C18", "wrap", lambda: errflow.io_error_wrap(ctx, prog))
         ctx.guard("C18", "finalize-mismatch", lambda: gen.guards_finalize(ctx, prog, need=("mismatch",)))
         ctx.guard("C18", "finalize-delegate", lambda: gen.finalizers_delegate(ctx, prog))
+        ctx.guard("C18", "summaries", lambda: summary.check(ctx, prog, 'generate_easy_std::|GeneratorError', floor=2))
     return ctx.finish(EXPL, ["std::io::Read::read contract: Ok(n) implies n <= buf.len() and n bytes were written", "File::metadata().len() is the size the property calls 'reported by its metadata'"])
